@@ -1012,7 +1012,16 @@ fn src_piece(rng: &mut Rng, depth: &mut u32, defined: &mut [bool; 5]) -> String 
     let c = *rng.pick(SPECIALS);
     let cat = *rng.pick(&[14u32, 14, 12, 12, 9, 10, 5, 11, 11, 0, 13, 1, 2, 6, 15, 7, 3]);
     let sp = |rng: &mut Rng| if rng.chance(3, 4) { " " } else { "" };
-    match rng.below(32) {
+    match rng.below(34) {
+        // a control word whose execution changes the code of the character that follows it directly (the lexer
+        // has looked at that character to end the word, and must look again when it reads it)
+        32 | 33 => {
+            let i = rng.below(3) as usize;
+            defined[i] = true;
+            let n = (b'a' + i as u8) as char;
+            let g = if rng.chance(1, 5) { "\\global" } else { "" };
+            format!("\\def\\v{n}{{{g}\\catcode`\\{c}={cat} }}\\v{n}{c}x{c} ")
+        }
         30 => format!("\\globaldefs={}{}", *rng.pick(&["1", "-1", "0", "0"]), sp(rng)),
         31 => format!("{{\\catcode`\\{c}={cat}{}}}{c}x{c} ", sp(rng)),
         0..=4 => {
